@@ -43,6 +43,7 @@ type Contract struct {
 	HasModifies bool
 	Loops    map[int]*LoopSpec
 	Inlines  map[string]bool // callee keys to inline in this function
+	Implements []string    // interface contracts this function must satisfy
 	Lets     []LetDef
 	File     string
 	Line     int
@@ -108,7 +109,7 @@ type Specs struct {
 var headerRe = regexp.MustCompile(`^func\s*(\(\s*(\w+)?\s*(\*?)\s*(\w+)\s*\))?\s*(\w+)\s*$`)
 
 var clauseKw = map[string]bool{"property": true, "opts": true, "requires": true, "ensures": true, "modifies": true,
-	"loop": true, "invariant": true, "inline": true, "let": true, "params": true, "decreases": true}
+	"loop": true, "invariant": true, "inline": true, "implements": true, "let": true, "params": true, "decreases": true}
 var topKw = map[string]bool{"spec": true, "ghost": true, "lemma": true, "axiom": true, "func": true, "closure": true,
 	"interface": true, "extern": true, "directive": true}
 
@@ -264,7 +265,7 @@ func loadContractFile(path, pkgPath string, resolveQual func(q string) string, s
 					return fail(l, "extern needs a package qualifier")
 				}
 				c.Local = name
-				c.Key = resolveQual(name[:k]) + name[k:]
+				c.Key = pkgPath + "::" + resolveQual(name[:k]) + name[k:]
 			}
 			if old, ok := sp.Contracts[c.Key]; ok {
 				if old.Kind == "extern" || old.Kind == "interface" {
@@ -307,6 +308,14 @@ func loadContractFile(path, pkgPath string, resolveQual func(q string) string, s
 				return fail(l, "params outside a contract")
 			}
 			cur.Params = splitNames(rest)
+		case "implements":
+			if cur == nil {
+				return fail(l, "implements outside a contract")
+			}
+			for _, n := range splitNames(rest) {
+				k := strings.Index(n, ".")
+				cur.Implements = append(cur.Implements, resolveQual(n[:k])+n[k:])
+			}
 		case "inline":
 			if cur == nil {
 				return fail(l, "inline outside a contract")
